@@ -10,6 +10,7 @@ import XV.Driver.DtdValid
 import XV.Driver.Trace
 import XV.Driver.Ext
 import XV.Driver.Uri
+import XV.Driver.XInclude
 open XV.Driver
 
 def main (args : List String) : IO UInt32 := do
@@ -32,5 +33,6 @@ def main (args : List String) : IO UInt32 := do
   | ["pool"] => lineLoop stdin stdout XV.Driver.Trace.handlePool; return 0
   | ["extgate"] => lineLoop stdin stdout XV.Driver.Ext.handle; return 0
   | ["uri"] => lineLoop stdin stdout XV.Driver.Uri.handle; return 0
+  | ["xinclude"] => lineLoop stdin stdout XV.Driver.XInclude.handle; return 0
   | ["utf8spec"] => lineLoop stdin stdout XV.Driver.Utf8.handleSpec; return 0
   | _ => IO.eprintln "usage: xvdriver <area>"; return 2
